@@ -14,7 +14,11 @@ def main():
             subprocess.check_call(['git', '-C', wt, 'revert', '--no-commit', patch[3:]], stdout=subprocess.DEVNULL)
         else:
             subprocess.check_call(['git', '-C', wt, 'apply', os.path.abspath(patch)])
-        env = dict(os.environ, VERIF_REPO=wt, VERIF_TAG='mut%d' % os.getpid())
+        # freeze the harness objects so that edits/rebuilds in /verif/sim do not disturb this run
+        subprocess.check_call(['make', '-s', '-C', V, 'harness'], stdout=subprocess.DEVNULL)
+        frozen = os.path.join(V, 'build', 'harness-mut%d' % os.getpid())
+        shutil.copytree(os.path.join(V, 'build', 'harness'), frozen)
+        env = dict(os.environ, VERIF_REPO=wt, VERIF_TAG='mut%d' % os.getpid(), VERIF_HARNESS=frozen)
         for p in props:
             t0 = time.time()
             r = subprocess.run([os.path.join(V, 'bin', 'check'), p] + extra, stdout=subprocess.PIPE, stderr=subprocess.STDOUT, text=True, env=env)
@@ -27,6 +31,7 @@ def main():
                 shutil.rmtree(os.path.join(V, 'build', '%s-%s-%s' % (p, t, env['VERIF_TAG'])), ignore_errors=True)
                 shutil.rmtree(os.path.join(V, 'build', '%s-%s-%s-tsan' % (p, t, env['VERIF_TAG'])), ignore_errors=True)
     finally:
+        shutil.rmtree(os.path.join(V, 'build', 'harness-mut%d' % os.getpid()), ignore_errors=True)
         subprocess.call(['git', '-C', '/repo', 'worktree', 'remove', '--force', wt])
     print('SUMMARY', ' '.join('%s=%d' % kv for kv in rc_all.items()))
 main()
